@@ -69,6 +69,51 @@ def oracle_array(args):
 
 
 @safe_oracle
+def oracle_array_sequence(args):
+    """a SEQUENCE of array calls: f is a function of the values it is given. The caller updates its array in place between two calls
+    (x *= c); a real and a complex array of one shape follow each other; results of earlier calls are kept and read later. Every
+    result has to be the elementwise map of the scalar function at the values passed in THAT call, and stay so."""
+    f = _impl()
+    xs = np.array(args["xs"], dtype=np.float64)
+    ys = np.array([complex(*v) for v in args["ys"]]) if args.get("ys") else None
+    problems = []
+
+    def want(arr):
+        return np.array([f(v) for v in arr.ravel()]).reshape(arr.shape)
+
+    def same(a, b):
+        a, b = np.asarray(a), np.asarray(b)
+        return a.shape == b.shape and bool(np.all((a == b) | (np.isnan(a) & np.isnan(b))))
+    shape = tuple(args.get("shape") or (len(xs),))
+    x = xs.reshape(shape).copy()
+    w1 = want(x)
+    r1 = f(x)
+    if not same(r1, w1):
+        problems.append("first call differs from the elementwise scalar results")
+    x *= float(args["factor"])                      # the caller's own array, updated in place
+    w2 = want(x)
+    r2 = f(x)
+    if not same(r2, w2):
+        problems.append("after the caller updated its array in place (x *= %r) the call returns values for other arguments (max dev %.3g)"
+                        % (args["factor"], float(np.nanmax(np.abs(np.asarray(r2) - w2)))))
+    if not same(r1, w1):
+        problems.append("the result of the FIRST call changed when the function was called again")
+    if ys is not None:
+        y = ys.reshape(shape)
+        w3 = want(y)
+        r3 = f(y)
+        if not same(r3, w3):
+            problems.append("a complex array after a real array of the same shape: result differs from the elementwise scalar results (max dev %.3g)"
+                            % float(np.nanmax(np.abs(np.asarray(r3) - w3))))
+        if not same(r2, w2):
+            problems.append("the result of an earlier call changed when the function was called again")
+        r4 = f(x)
+        if not same(r4, w2) or not same(r3, w3):
+            problems.append("real array again after the complex one: a result differs / an earlier result changed")
+    return not problems, {"problems": problems[:3]}, {"problems": []}, "; ".join(problems[:2]) or "ok"
+
+
+@safe_oracle
 def oracle_int_typed(args):
     """a real argument carried as a Python int, a numpy integer scalar or an integer-dtype array gives the value of the same
     number as a float (integers are real arguments too)"""
@@ -178,7 +223,7 @@ def oracle_after_library_use(args):
     return not problems, {"problems": problems[:3]}, {"problems": []}, "; ".join(problems[:2]) or "ok"
 
 
-ORACLES = {"afssh_factor": oracle_afssh_factor, "after_library_use": oracle_after_library_use, "accuracy": oracle_accuracy, "monotone": oracle_monotone, "array": oracle_array, "int_typed": oracle_int_typed}
+ORACLES = {"afssh_factor": oracle_afssh_factor, "after_library_use": oracle_after_library_use, "accuracy": oracle_accuracy, "monotone": oracle_monotone, "array": oracle_array, "array_sequence": oracle_array_sequence, "int_typed": oracle_int_typed}
 
 
 def _gen_real(ctx, n):
@@ -341,6 +386,18 @@ def run(ctx):
         ctx.case(("array", k, tuple(abs(v) < 1e-3 for v in arr)))
         if not ok:
             ctx.oracle_fail("array-not-elementwise", "array", {"xs": arr}, obs, req, text)
+    # sequences of array calls: in-place updates of the caller's array, real then complex of one shape, earlier results kept
+    for i in range(ctx.budget(12, 300)):
+        k = int(ctx.rng.choice([1, 2, 3, 4, 6, 8, 9]))
+        shape = [3, 3] if k == 9 else ([2, 2] if k == 4 and i % 2 else [k])
+        a = {"xs": [float(v) for v in ctx.rng.choice(xs, k)], "shape": shape, "factor": float(ctx.rng.choice([3.0, 0.5, -1.0, 1e-3, 1e3]))}
+        if i % 2 == 0:
+            a["ys"] = [[float(v.real), float(v.imag)] for v in ctx.rng.choice(zs, k)]
+        ok, obs, req, text = oracle_array_sequence(a)
+        ctx.case(("array-sequence", k, "ys" in a))
+        ctx.count("array_call_sequences")
+        if not ok:
+            ctx.oracle_fail("array-call-sequence", "array_sequence", a, obs, req, text)
     # integer-typed real arguments
     for i in range(ctx.budget(3, 30)):
         a = {"values": [0, 1] + [int(v) for v in ctx.rng.integers(-5, 40, size=5)]}
